@@ -83,6 +83,59 @@ theorem validate_sound (forms : List DbForm) (rows : List (Nat × Nat × Nat × 
   obtain ⟨f, hf, hfm, hfl, hall⟩ := row_tuple_sound forms row hs mode hmode hm choice hc1
   exact ⟨row, hrow, f, hf, hfm, hfl, hc2 f.2 hall⟩
 
+/-- the validator model answered Ok: the operand translation succeeded and the signature stage accepted its result -/
+theorem validateR_stages (R : ResolvedInst) (inst : Inst) (ops : List Operand) (h : validateR R inst ops = .ok) :
+    ∃ sigs cf cm, sigStage R inst ops = .ok (sigs, cf, cm) ∧ matchStage R inst.mode sigs = .ok := by
+  unfold validateR at h
+  simp only at h
+  split at h
+  · rename_i hne; exact absurd h hne
+  · split at h
+    · rename_i e he; exact absurd h e.2
+    · rename_i sigs cf cm he
+      split at h
+      · rename_i hne; exact absurd h hne
+      · rename_i hm; exact ⟨sigs, cf, cm, he, by simpa using hm⟩
+
+theorem matchStage_ok (R : ResolvedInst) (mode : Nat) (sigs : List (Nat × Nat)) (h : matchStage R mode sigs = .ok)
+    (hne : R.rows.isEmpty = false) : ∃ g', matchSignatures mode sigs R.rows false = (true, g') := by
+  unfold matchStage at h
+  rw [hne] at h
+  simp only [Bool.false_eq_true, if_false] at h
+  cases hm : matchSignatures mode sigs R.rows false with
+  | mk m g =>
+    rw [hm] at h
+    simp only at h
+    cases m with
+    | true => exact ⟨g, rfl⟩
+    | false => cases g <;> simp at h
+
+/-- **`validate_sound`, about the whole validator model**: if `validate` over the regenerated tables answers Ok for an
+    instruction (any options, any {extra} register, any operands, 32- or 64-bit mode), then the operand translation
+    succeeded with signatures `sigs` and there are a signature row of the instruction and a form of that instruction in
+    db/isa_x86.json - allowed in that mode, with the row's operand count - in which the given operands sit (`Embeds`):
+    every spelled operand shares an operand kind with the database form at its position and the positions not spelled
+    are implicit operands. Hence a near-miss tuple whose kinds no database form of the instruction admits position by
+    position is refused. (`e` ranges over the generated per-instruction form lists, `all_ids`: every id has one.) -/
+theorem validate_sound_model : ∀ part ∈ parts, ∀ e ∈ part, ∀ (inst : Inst) (ops : List Operand),
+    inst.id = e.1 → (inst.mode = 1 ∨ inst.mode = 2) → validate AsmjitVerif.Gen.X86Sig.tables inst ops = .ok →
+    ∃ R sigs cf cm, resolve AsmjitVerif.Gen.X86Sig.tables inst.id = some R ∧ sigStage R inst ops = .ok (sigs, cf, cm) ∧
+      ∃ row ∈ R.rows, ∃ f ∈ e.2, f.1 &&& inst.mode ≠ 0 ∧ f.2.length = row.1 ∧ Embeds sigs row.2.2.2 f.2 := by
+  intro part hp e he inst ops hid hmode hv
+  obtain ⟨R, hres, hne, hrows⟩ := sig_rows_sound part hp e he
+  rw [← hid] at hres
+  unfold validate at hv
+  rw [hres] at hv
+  simp only at hv
+  obtain ⟨sigs, cf, cm, hs, hm⟩ := validateR_stages R inst ops hv
+  have hemp : R.rows.isEmpty = false := by
+    cases hr : R.rows with
+    | nil => exact absurd hr hne
+    | cons _ _ => rfl
+  obtain ⟨g', hg⟩ := matchStage_ok R inst.mode sigs hm hemp
+  obtain ⟨row, hrow, f, hf, h1, h2, h3⟩ := validate_sound e.2 R.rows hrows inst.mode hmode sigs g' hg
+  exact ⟨R, sigs, cf, cm, hres, hs, row, hrow, f, hf, h1, h2, h3⟩
+
 -- non-vacuity: `add` (id 9) has rows, its first row admits r8|m8 x r8 and the tuple (GpbLo, GpbLo) is a database form
 example : ∃ e ∈ parts.flatMap id, e.1 = 9 ∧ e.2 ≠ [] := by decide +kernel
 example : (resolve AsmjitVerif.Gen.X86Sig.tables 9).any (fun R => R.rows.length > 4) = true := by decide +kernel
